@@ -17,6 +17,7 @@ type vCase struct {
 	Tier     int         `json:"tier"`
 	Hang     bool        `json:"hang"`
 	Skip     bool        `json:"skip"`
+	Race     bool        `json:"race"`
 }
 
 type vOut struct {
@@ -35,7 +36,14 @@ func vRunCase(c vCase) (out vOut) {
 	vVec, vPos, vObs, vCovers = c.Vector, 0, nil, nil
 	vRealtime = c.Realtime
 	vTier = c.Tier
-	vHeldRanks, vMainGoid, vNoBlockMsg = nil, vGoid(), ""
+	vHeldRanks, vMainGoid, vNoBlockMsg, vSpawned = nil, vGoid(), "", nil
+	vRaceMode, vRaceStop = c.Race, make(chan struct{})
+	defer func() {
+		if vRaceMode {
+			time.Sleep(100 * time.Millisecond) // let the touchers meet the last accesses of the path
+		}
+		close(vRaceStop)
+	}()
 	defer func() {
 		out.Obs, out.Covers = vObs, vCovers
 		if r := recover(); r != nil {
